@@ -17,7 +17,7 @@ class Job:
     def __init__(self, name, template, bodies=(), enforce=None, harness=None, replace=(),
                  loop_contracts=False, unwind=None, defines=(), cbmc_flags=(), min_obligations=1,
                  bounded=False, timeout=None, backend=None, checks=True, vacuity=True,
-                 object_bits=None, note=None, expect_labels=(), needs=None, includes=(), stop_on_fail=False):
+                 object_bits=None, note=None, expect_labels=(), needs=None, includes=(), stop_on_fail=False, drop_checks=()):
         self.name = name
         self.template = template
         self.bodies = list(bodies)
@@ -39,6 +39,7 @@ class Job:
         self.expect_labels = list(expect_labels)
         self.stop_on_fail = stop_on_fail  # one query: first failing property only (vacuity probe then runs separately)
         self.includes = list(includes)  # extra -I for goto-cc (e.g. plain C headers of /repo)
+        self.drop_checks = list(drop_checks)  # generated checks switched off for this job (stated in the spec)
         self.needs = needs  # names of the bodies this job depends on (None = all)
 
 
@@ -149,7 +150,7 @@ def cbmc_pipeline(ctx, job, cfile, vac):
         t2 = 0
     base_flags = ["--json-ui", "--trace"]
     if job.checks:
-        base_flags += ["--bounds-check", "--pointer-check", "--div-by-zero-check", "--signed-overflow-check", "--conversion-check"]
+        base_flags += [f for f in ["--bounds-check", "--pointer-check", "--div-by-zero-check", "--signed-overflow-check", "--conversion-check"] if f not in job.drop_checks]
     if job.unwind:
         base_flags += ["--unwind %d" % job.unwind, "--unwinding-assertions"]
     if job.object_bits:
